@@ -23,14 +23,15 @@ USEGS = ["a", "ab", "b", "axb", "a.b", ""]
 # a second, shallower enumeration over a wider alphabet: literals that differ only in case, literals made of
 # regular-expression metacharacters, non-ASCII, percent and digits - each with a path segment that a regex reading of
 # the literal (or a case-insensitive one) would accept
-W_PSEGS = ["a", "A", "a+", "a*b", "a|b", "(a)", "a$", "^a", "[ab]", "a?", "a{2}", "\\d", "\u00e9", "a-b", "%41", "1", ":p"]
+W_PSEGS = ["a", "A", "a+", "a*b", "a|b", "(a)", "a$", "^a", "[ab]", "a?", "a{2}", "\\d", "\u00e9", "a-b", "%41", "1", ":p", ":user-id", ":f.n", ":9"]
+W_FINALS = ["", ":r?", ":r+", ":r*", ":x-y?", ":x.y+", ":x-y*", ":0*"]     # parameter names are whatever follows the colon
 W_USEGS = ["a", "A", "aa", "ab", "b", "a+", "a*b", "a|b", "(a)", "a$", "^a", "[ab]", "a?", "a{2}", "\\d", "7", "\u00e9", "e", "a-b", "%41", "1", ""]
 
 
-def patterns(maxlen, psegs=None):
+def patterns(maxlen, psegs=None, finals=None):
     psegs = PSEGS if psegs is None else psegs
     out = []
-    for fin in FINALS:
+    for fin in (FINALS if finals is None else finals):
         for n in range(0, (maxlen if not fin else maxlen - 1) + 1):
             for segs in itertools.product(psegs, repeat=n):
                 s = list(segs) + ([fin] if fin else [])
@@ -318,7 +319,7 @@ def run(tier, seed):
         k = seed % len(pats)
         pats = pats[k:] + pats[:k]
     chunks = [pats[i::64] for i in range(64)]
-    wpats = patterns(2 if tier == "quick" else 3, W_PSEGS)
+    wpats = patterns(2 if tier == "quick" else 3, W_PSEGS, W_FINALS)
     chunks += [["wide"] + wpats[i::32] for i in range(32)]
     results = core.pmap("checks.c16", "work", chunks, initargs=(tier,))
     total = 0
